@@ -53,6 +53,24 @@ namespace Dune {
      */
     ParameterTree();
 
+    ParameterTree(const ParameterTree&) = default;
+    ParameterTree(ParameterTree&&) = default;
+
+    /** \brief Assignment
+     *
+     * The source is taken by value (copy and swap), so it may be a subtree of
+     * the tree assigned to (`pt = pt.sub("a")`) or contain it (`pt.sub("a") = pt`).
+     */
+    ParameterTree& operator=(ParameterTree other)
+    {
+      prefix_.swap(other.prefix_);
+      valueKeys_.swap(other.valueKeys_);
+      subKeys_.swap(other.subKeys_);
+      values_.swap(other.values_);
+      subs_.swap(other.subs_);
+      return *this;
+    }
+
 
     /** \brief test for key
      *
